@@ -17,7 +17,7 @@ import Gts.Model.Feature
 import Gts.Model.InsdcParse
 import Gts.Model.GenBank
 namespace Gts.Bridge
-open Gts Gts.Gen Gts.PropsG
+open Gts Gts.Gen Gts.Gen.PropsGo Gts.PropsG
 
 /-! ### the model over `String` is the polymorphic reading -/
 
